@@ -741,8 +741,10 @@ def c16_one(target, grant, types, limit=None):
 def miri_c16_engine(prop, tier, seed):
     quick = tier == "quick"
     reg = subprocess.run([NATIVE, "registry"], capture_output=True, text=True).stdout.splitlines()
-    types = [ln.split()[0] for ln in reg if " z=true " in ln]
-    fam_of = {ln.split()[0]: ln.split("fam=")[1].split()[0] for ln in reg if " z=true " in ln}
+    # type names may contain spaces (generic arguments): everything before " fam="
+    tname = lambda ln: ln.split(" fam=")[0].strip()
+    types = [tname(ln) for ln in reg if " z=true " in ln]
+    fam_of = {tname(ln): ln.split("fam=")[1].split()[0] for ln in reg if " z=true " in ln}
 
     def of(variant, fams=None):
         return [t for t in types if t.startswith(variant + "::") and (fams is None or fam_of[t] in fams)]
